@@ -56,3 +56,14 @@ func (w *World) newEngine(kind string) (storage.KvStorage, bool, error) {
 	}
 	return nil, false, fmt.Errorf("unknown engine %q", kind)
 }
+
+// NewEngineFor creates a bare engine for raw-engine properties.
+func (w *World) NewEngineFor(kind string) (storage.KvStorage, bool, error) { return w.newEngine(kind) }
+
+// CloseEngines closes what NewEngineFor opened.
+func (w *World) CloseEngines() {
+	for _, c := range w.closers {
+		c()
+	}
+	w.closers = nil
+}
